@@ -10,8 +10,10 @@ import (
 	"context"
 	"encoding/binary"
 	"encoding/hex"
+	"encoding/json"
 	"fmt"
 	"math/big"
+	"strings"
 
 	"github.com/libsv/go-bk/bec"
 	"github.com/libsv/go-bk/crypto"
@@ -41,13 +43,63 @@ func (q mQuote) String() string {
 	return fmt.Sprintf("standard %d sat/%d B, data %d sat/%d B", q.StdSat, q.StdBytes, q.DataSat, q.DataBytes)
 }
 
-// lib builds the go-bt quote through its public constructor and AddQuote.
+// lib builds the go-bt quote through the public API. A quote object has a
+// history in real use - it was used before and its rates were refreshed - so
+// the object is produced in one of four ways, chosen by the rates themselves
+// (replays repeat it): (0) constructor + AddQuote; (1) the default quote, used
+// once, then AddQuote with the wanted rates; (2) a quote with other rates, used
+// once, then refreshed by UnmarshalJSON of a document carrying the wanted
+// rates; (3) through FeeQuotes.UpdateMinerFees and Quote.
 func (q mQuote) lib() *bt.FeeQuote {
-	fq := bt.NewFeeQuote()
-	fq.AddQuote(bt.FeeTypeStandard, &bt.Fee{FeeType: bt.FeeTypeStandard,
-		MiningFee: bt.FeeUnit{Satoshis: q.StdSat, Bytes: q.StdBytes}, RelayFee: bt.FeeUnit{Satoshis: q.StdSat, Bytes: q.StdBytes}})
-	fq.AddQuote(bt.FeeTypeData, &bt.Fee{FeeType: bt.FeeTypeData,
-		MiningFee: bt.FeeUnit{Satoshis: q.DataSat, Bytes: q.DataBytes}, RelayFee: bt.FeeUnit{Satoshis: q.DataSat, Bytes: q.DataBytes}})
+	std := &bt.Fee{FeeType: bt.FeeTypeStandard, MiningFee: bt.FeeUnit{Satoshis: q.StdSat, Bytes: q.StdBytes}, RelayFee: bt.FeeUnit{Satoshis: q.StdSat, Bytes: q.StdBytes}}
+	data := &bt.Fee{FeeType: bt.FeeTypeData, MiningFee: bt.FeeUnit{Satoshis: q.DataSat, Bytes: q.DataBytes}, RelayFee: bt.FeeUnit{Satoshis: q.DataSat, Bytes: q.DataBytes}}
+	plain := func() *bt.FeeQuote {
+		return bt.NewFeeQuote().AddQuote(bt.FeeTypeStandard, std).AddQuote(bt.FeeTypeData, data)
+	}
+	use := func(fq *bt.FeeQuote) { // what any earlier transaction would have done with the quote
+		tx := bt.NewTx()
+		_ = tx.From("11"+strings.Repeat("22", 31), 0, "76a914"+strings.Repeat("33", 20)+"88ac", 100000)
+		_ = tx.PayTo(bscript.NewFromBytes(gen.P2PKH(bytes.Repeat([]byte{0x44}, 20))), 1000)
+		_ = tx.AddOpReturnOutput([]byte("used before"))
+		_, _ = tx.IsFeePaidEnough(fq)
+		_, _ = tx.EstimateFeesPaid(fq)
+		_ = tx.Change(bscript.NewFromBytes(gen.P2PKH(bytes.Repeat([]byte{0x55}, 20))), fq)
+		_, _ = fq.Fee(bt.FeeTypeStandard)
+		_, _ = fq.Fee(bt.FeeTypeData)
+	}
+	var fq *bt.FeeQuote
+	pv, _ := mon.TryQuiet(func() {
+		switch (q.StdSat + 3*q.StdBytes + 5*q.DataSat + 7*q.DataBytes) % 4 {
+		case 1:
+			fq = bt.NewFeeQuote()
+			use(fq)
+			fq.AddQuote(bt.FeeTypeStandard, std).AddQuote(bt.FeeTypeData, data)
+		case 2:
+			other := mQuote{StdSat: q.StdSat*3 + 7, StdBytes: q.StdBytes + 1, DataSat: q.DataSat/2 + 1, DataBytes: q.DataBytes*2 + 3}
+			fq = bt.NewFeeQuote().AddQuote(bt.FeeTypeStandard, &bt.Fee{FeeType: bt.FeeTypeStandard, MiningFee: bt.FeeUnit{Satoshis: other.StdSat, Bytes: other.StdBytes}, RelayFee: bt.FeeUnit{Satoshis: other.StdSat, Bytes: other.StdBytes}}).
+				AddQuote(bt.FeeTypeData, &bt.Fee{FeeType: bt.FeeTypeData, MiningFee: bt.FeeUnit{Satoshis: other.DataSat, Bytes: other.DataBytes}, RelayFee: bt.FeeUnit{Satoshis: other.DataSat, Bytes: other.DataBytes}})
+			use(fq)
+			js, err := json.Marshal(plain())
+			if err != nil || json.Unmarshal(js, fq) != nil {
+				fq = nil
+			}
+		case 3:
+			fqs := bt.NewFeeQuotes("miner")
+			if old, err := fqs.Quote("miner"); err == nil {
+				use(old)
+			}
+			if _, err := fqs.UpdateMinerFees("miner", bt.FeeTypeStandard, std); err != nil {
+				return
+			}
+			if _, err := fqs.UpdateMinerFees("miner", bt.FeeTypeData, data); err != nil {
+				return
+			}
+			fq, _ = fqs.Quote("miner")
+		}
+	})
+	if pv != nil || fq == nil {
+		return plain()
+	}
 	return fq
 }
 
